@@ -9,7 +9,7 @@ package main
 // Supported: functions and closures of one package (calls between them are followed to any depth), int / bool /
 // string / nil values, if / switch / return / assignment / short declarations, the operators of integer and boolean
 // expressions, len, integer conversions, new(T) for big.Int, and — by reflection on the REAL libraries linked into
-// this program — any method of decimal.Decimal, *big.Int, *types.XNumber, *types.XError, plus the package-level
+// this program — any method of decimal.Decimal, *big.Int, *xNumber, *xError, plus the package-level
 // functions and variables listed in newInterp.  Anything else stops the translator with the position of the construct.
 
 import (
@@ -20,9 +20,21 @@ import (
 	"reflect"
 	"strconv"
 
-	"github.com/nyaruka/goflow/excellent/types"
 	"github.com/shopspring/decimal"
 )
+
+// stand-ins for goflow's *types.XNumber and *types.XError (only what the interpreted functions use of them)
+type xNumber struct{ d decimal.Decimal }
+
+func newXNumber(d decimal.Decimal) *xNumber { return &xNumber{d} }
+func (x *xNumber) Native() decimal.Decimal  { return x.d }
+func (x *xNumber) Equals(o *xNumber) bool   { return x.d.Equals(o.d) }
+func (x *xNumber) Compare(o *xNumber) int   { return x.d.Cmp(o.d) }
+func (x *xNumber) Render() string           { return x.d.String() }
+
+type xError struct{ msg string }
+
+func newXErrorf(format string, a ...any) *xError { return &xError{fmt.Sprintf(format, a...)} }
 
 type scope struct {
 	vars   map[string]any
@@ -92,10 +104,9 @@ func newInterp(files ...*ast.File) *interp {
 		}
 	}
 	in.bindings = map[string]any{
-		"types.NewXErrorf":          types.NewXErrorf,
-		"types.NewXNumber":          types.NewXNumber,
-		"types.NewXNumberFromInt":   types.NewXNumberFromInt,
-		"types.XNumberZero":         types.XNumberZero,
+		"types.NewXErrorf":          newXErrorf,
+		"types.NewXNumber":          newXNumber,
+		"types.XNumberZero":         newXNumber(decimal.Zero),
 		"big.NewInt":                big.NewInt,
 		"decimal.New":               decimal.New,
 		"decimal.NewFromInt":        decimal.NewFromInt,
@@ -117,8 +128,8 @@ func (in *interp) tick(n ast.Node) {
 	}
 }
 
-// normalise: what interpreted code sees of a host value (all integers are int64, a nil pointer is nil)
-func normalise(v reflect.Value) any {
+// hostValue: what interpreted code sees of a host value (all integers are int64, a nil pointer is nil)
+func hostValue(v reflect.Value) any {
 	if !v.IsValid() {
 		return nil
 	}
@@ -176,11 +187,11 @@ func (in *interp) hostCall(n ast.Node, fn reflect.Value, args []any) any {
 	case 0:
 		return nil
 	case 1:
-		return normalise(out[0])
+		return hostValue(out[0])
 	}
 	tp := make(tuple, len(out))
 	for i := range out {
-		tp[i] = normalise(out[i])
+		tp[i] = hostValue(out[i])
 	}
 	return tp
 }
@@ -649,7 +660,7 @@ func (in *interp) callExpr(x *ast.CallExpr, sc *scope) any {
 				in.fail(x, "method %s on nil", sel.Sel.Name)
 			}
 			switch recv.(type) {
-			case decimal.Decimal, *big.Int, *types.XNumber, *types.XError:
+			case decimal.Decimal, *big.Int, *xNumber, *xError:
 			default:
 				in.fail(x, "method %s on a %T", sel.Sel.Name, recv)
 			}
